@@ -21,6 +21,10 @@ def is_entropy_call(t):
         return False
     if any(n in ENTROPY for n in names):
         return True
+    # an entropy function handed to an adaptor as a value: `iter::repeat_with(random)`, `.map(rand::random)`
+    for a in t.get("args") or []:
+        if a.get("k") == "const" and (a.get("fn") or {}).get("def") in ENTROPY:
+            return True
     return False
 
 
